@@ -79,6 +79,24 @@ TripleFailing(e) ==
     ELSE IF e.dbc > e.dab + e.dac + AngTol THEN F("C06_Triangle", "dbc")
     ELSE None
 
+\* ---- batch event: n pairs measured by ONE call of each entry point on (n,3) Euler arrays / n-element Rotations ----
+\* e.ang, e.cone, e.ip are sequences of result vectors (one per entry point and input form); every vector must have one
+\* value per pair and each value must satisfy the single-pair clauses against that pair's gt / zgt
+BatchFailing(e) ==
+    LET OkLen(v) == Len(v) = e.n
+        AngOk(v) == \A i \in DOMAIN v : InRange(v[i]) /\ Near(v[i], e.gt[i])
+        ConeOk(v) == \A i \in DOMAIN v : InRange(v[i]) /\ Near(v[i], e.zgt[i])
+        IpOk(v) == \A i \in DOMAIN v : InRange(v[i])
+    IN
+    IF Len(e.gt) # e.n \/ Len(e.zgt) # e.n THEN F("C06_OnePerPair", "gt")
+    ELSE IF ~AllIn(e.ang, OkLen) THEN F("C06_OnePerPair", "ang")
+    ELSE IF ~AllIn(e.cone, OkLen) THEN F("C06_OnePerPair", "cone")
+    ELSE IF ~AllIn(e.ip, OkLen) THEN F("C06_OnePerPair", "ip")
+    ELSE IF ~AllIn(e.ang, AngOk) THEN F("C06_AngDistIsRelativeAngle", "ang")
+    ELSE IF ~AllIn(e.cone, ConeOk) THEN F("C06_ConeIsZAxisAngle", "cone")
+    ELSE IF ~AllIn(e.ip, IpOk) THEN F("C06_InPlaneRange", "ip")
+    ELSE None
+
 \* ---- normals events ----
 Small(x) == x >= 0 /\ x <= VecTol
 
@@ -95,6 +113,7 @@ ToNormalFailing(e) ==
 
 Failing(e) == CASE e.kind = "pair" -> PairFailing(e)
                 [] e.kind = "triple" -> TripleFailing(e)
+                [] e.kind = "batch" -> BatchFailing(e)
                 [] e.kind = "normals" -> NormalsFailing(e)
                 [] e.kind = "tonormal" -> ToNormalFailing(e)
 
